@@ -246,6 +246,23 @@ package shutterservice
 //@   requires s != nil && s.DBPool != nil && (forall k Str :: has(s.Processors, k) ==> s.Processors[k] != nil)
 //@   ensures ret0 == nil ==> (evcount("setMultiSynced") == old(evcount("setMultiSynced")) + 1 && evarg("setMultiSynced", 0, old(evcount("setMultiSynced"))) == toBlock && evcount("commit") == old(evcount("commit")) + 1)
 //@   opt frame = off
+//@ // the events of a range are written through the transaction handle that is passed in (the one that also
+//@ // carries the new sync position), never through the pool
+//@ pred trigRegEv(e) := typeis(e, "*shuttereventtriggerregistryv1.Shuttereventtriggerregistryv1EventTriggerRegistered") && as(e, "*shuttereventtriggerregistryv1.Shuttereventtriggerregistryv1EventTriggerRegistered") != nil
+//@ func (*EventTriggerRegisteredEventProcessor).ProcessEvents
+//@   requires p != nil && (forall i :: 0 <= i && i < len(events) ==> trigRegEv(events[i]))
+//@   ensures forall k :: old(evcount("insTrigReg")) <= k && k < evcount("insTrigReg") ==> evarg("insTrigReg", 0, k) == payload(tx)
+//@   ensures evcount("insTrigReg") >= old(evcount("insTrigReg"))
+//@   invariant evcount("insTrigReg") >= old(evcount("insTrigReg"))
+//@   invariant forall k :: old(evcount("insTrigReg")) <= k && k < evcount("insTrigReg") ==> evarg("insTrigReg", 0, k) == payload(tx)
+//@   opt frame = off
+//@ func (*RegistrySyncer).insertIdentityRegisteredEvents
+//@   requires s != nil && (forall i :: 0 <= i && i < len(events) ==> events[i] != nil)
+//@   ensures forall k :: old(evcount("insIdReg")) <= k && k < evcount("insIdReg") ==> evarg("insIdReg", 0, k) == payload(tx)
+//@   ensures evcount("insIdReg") >= old(evcount("insIdReg"))
+//@   invariant evcount("insIdReg") >= old(evcount("insIdReg"))
+//@   invariant forall k :: old(evcount("insIdReg")) <= k && k < evcount("insIdReg") ==> evarg("insIdReg", 0, k) == payload(tx)
+//@   opt frame = off
 //@ func (*RegistrySyncer).syncRange
 //@   requires s != nil && s.DBPool != nil && s.ExecutionClient != nil && s.Contract != nil
 //@   ensures ret0 == nil ==> evcount("commit") == old(evcount("commit")) + 1
